@@ -645,6 +645,11 @@ class C11(Prop):
             plan["mismatch"] = t.draw(8) == 7
             plan["ops"] = gen_ops(t)
             plan["via_session"] = t.choice([None, None, None, "returns", "raises"])
+            # fault: the application gives up on a first accept() (wait_for timeout) while the handshake event is still on its way -
+            # the call is cancelled at its await; afterwards the history goes on as if it had never been made
+            if t.draw(8) == 0:
+                plan["cancelled_accept"] = True
+                plan["delays"][0] = 5.0
         elif variant == "race":
             # a receive-side task (accept, then an iterator whose loop body also calls receive(), or typed receives) races with a
             # send-side task (close / send / raw close) that may act before, during or after accept(); judged by the global
@@ -693,6 +698,24 @@ class C11(Prop):
 
         async def scenario(loop):
             run = _Run(plan, ctx, loop, surf)
+
+            async def cancelled_prelude():
+                if not plan.get("cancelled_accept"):
+                    return
+                ctx.fault("call_cancelled_at_its_await")
+                peer = run.peer
+                n_sent, n_del = len(peer.sent), len(peer.delivered_idx)
+                try:
+                    await asyncio.wait_for(run.ws.accept(), 1.0)
+                    run.violate("cancelled-call", "accept-returned", "accept() returned although websocket.connect had not arrived yet")
+                except asyncio.TimeoutError:
+                    pass
+                except Exception as e:  # noqa
+                    run.violate("cancelled-call", "raised-%s" % type(e).__name__, repr(e))
+                if len(peer.sent) != n_sent or len(peer.delivered_idx) != n_del:
+                    run.violate("cancelled-call", "had-effects", "a call cancelled before the server had delivered anything forwarded %r / took %d events"
+                                % ([r for _, _, r in peer.sent[n_sent:]], len(peer.delivered_idx) - n_del))
+                run.sample("after cancelled accept")
             if plan["variant"] == "race":
                 ok_exc = ("RuntimeError", "AssertionError", "WebSocketDisconnect", "KeyError", "ClientGone")
 
@@ -757,6 +780,7 @@ class C11(Prop):
 
                 async def view(ws):
                     run.ws = ws
+                    await cancelled_prelude()
                     for i, (op, dl) in enumerate(plan["ops"]):
                         await run.step("main", i, op, dl)
                     if plan["via_session"] == "raises":
@@ -771,6 +795,7 @@ class C11(Prop):
                 tasks = [loop.create_task(prog(), name="main")]
             elif plan["variant"] == "seq":
                 async def prog():
+                    await cancelled_prelude()
                     for i, (op, dl) in enumerate(plan["ops"]):
                         await run.step("main", i, op, dl)
                 tasks = [loop.create_task(prog(), name="main")]
